@@ -149,6 +149,9 @@ RangeToken* RangeTokenMap::getRange(const XMLCh* const keyword,
                     if (rangeTok)
                     {
                         rangeTok = RangeToken::complementRanges(rangeTok, fTokenFactory, fTokenRegistry->getMemoryManager());
+                        // build the match map while we still hold the lock: once published
+                        // the token is shared between threads and must not be modified
+                        rangeTok->createMap();
                         VERIF_EVS("Acc", "gr_build", "obj,c,rw,val", (long long)elemMap, complement, 1, (long long)rangeTok);
                         elemMap->setRangeToken(rangeTok , complement);
                         VERIF_EVS("Acc", "gr_pub", "obj,c,rw,val", (long long)elemMap, complement, 1, (long long)rangeTok);
